@@ -127,6 +127,11 @@ def tlc(pid, module, cfg=None, workers=None, timeout=1800, env=None, simulate=No
     r.rc, r.out, r.wall = rc, out, time.time() - t0
     for m in _RE_STATES.finditer(out):
         r.generated, r.distinct = int(m.group(1)), int(m.group(2))
+    if simulate:
+        m = re.search(r"The number of states generated: (\d+)", out)
+        if m:
+            r.generated = int(m.group(1))
+            r.distinct = int(m.group(1))      # random walks: states visited (not deduplicated)
     m = _RE_DEPTH.search(out)
     if m:
         r.depth = int(m.group(1))
